@@ -5,6 +5,7 @@ from __future__ import annotations
 import itertools
 
 from vf.combi import digits
+from vf.guard import call as gcall, too_many_hangs
 from vf.core import Job, new_result, viol
 
 LEVEL = "exploration"
@@ -168,7 +169,7 @@ def run_graph(r, n, adj, declared, strict=True, edges_variants=True):
         if nontrivial:
             r["nontrivial"] += 1
         try:
-            res = fn()
+            res = gcall(fn)
         except Exception as ex:  # noqa: BLE001
             r["outcomes"][fname + ":raised"] += 1
             r["violations"].append(viol(fname, "raised", wit, f"{fname}(nodes={list(declared)}, adj={adj}): {type(ex).__name__}: {ex}"))
@@ -208,7 +209,7 @@ def _all_chunk(params, lo, hi):
         if desc:
             adj = [list(reversed(a)) for a in adj]
         run_graph(r, n, adj, perms[pi], True, edges_variants=(pi == 0))
-        if len(r["violations"]) >= 40:
+        if len(r["violations"]) >= 40 or too_many_hangs():
             r["capped"] = True
             break
     return r
@@ -224,7 +225,7 @@ def _dup_chunk(params, lo, hi):
         ds = digits(idx, len(seqs), 3)
         adj = [list(seqs[d]) for d in ds]
         run_graph(r, 3, adj, (0, 1, 2))
-        if len(r["violations"]) >= 40:
+        if len(r["violations"]) >= 40 or too_many_hangs():
             r["capped"] = True
             break
     return r
@@ -245,7 +246,7 @@ def _outside_chunk(params, lo, hi):
             if code >> b & 1:
                 adj[u].append(v)
         run_graph(r, 4, adj, decl, strict=False)
-        if len(r["violations"]) >= 40:
+        if len(r["violations"]) >= 40 or too_many_hangs():
             r["capped"] = True
             break
     return r
